@@ -25,8 +25,7 @@ ASSUME = ["solar position reference: Astronomical Almanac low-precision formulas
           "satellite position for the geometric zenith: pyorbital's propagation of the same element set (the zenith angle itself is computed "
           "by the harness from ECEF vectors)",
           "'absent' TLE data = no TLE file for the spacecraft in the configured directory; an unset TLE directory raises RuntimeError (configuration error)"]
-TB = ["coqc 8.16.1 kernel; Reals axioms; Flocq's Zfloor", "translator/gen.py (Gen_Angles: AST of get_angles, get_sat_angles, both look functions, "
-      "centered_modulus, get_absolute_azimuth_angle_diff - the modelled bodies are pinned textually by C15_source_shape)",
+TB = ["coqc 8.16.1 kernel; Reals axioms; Flocq's Zfloor", "translator/gen.py (Gen_Angles: get_angles / get_sat_angles traced on a stub reader with recording stand-ins for astronomy and orbit)",
       "correspondence check_fold (the rational mirror proved equal to the real-valued model, C15_executable_mirror) evaluated in Coq",
       "astronomy (pyorbital.astronomy) and orbit are oracles of the model; validated numerically by (B) and (C)"]
 
